@@ -77,7 +77,15 @@ impl Monitor for C04 {
                         alt_ctor,
                     )
                 };
-                let mut src = Src::new(data.clone(), policy.clone(), (k as u64) << 8 | idx).failing_at(k);
+                // variant 1: the source may fail only once and then report a plain end or go on delivering
+                // (a reader that has been told about an error must not depend on hearing it again)
+                // (not where the harness's own BufReader prefill would be the one to receive the error)
+                let prefill_gets_it = k == 0 && matches!(ctor, Ctor::FromBufReader(_));
+                let after = if variant == 1 && !prefill_gets_it { ((k as u64 + idx / 7) % 3) as u8 } else { 0 };
+                let mut src = Src::new(data.clone(), policy.clone(), (k as u64) << 8 | idx).failing_once_at(k, after);
+                if after != 0 {
+                    rep.inc("fault_runs_with_a_failure_that_is_not_repeated");
+                }
                 if variant == 1 && (k + idx as usize) % 11 == 0 {
                     // a storm of Interrupted results in front of an early read (possibly the failing one)
                     src = src.with_storm(1 + (k as u64 % 5), [129u32, 300, 1000][k % 3]);
